@@ -82,6 +82,21 @@ Theorem C01_frame_partial : forall e, env_okb e = true -> forall fuel code st R 
 Proof. exact c01_frame. Qed.
 Print Assumptions C01_frame_partial.
 
+(* REPL sessions (Interpreter.execute called repeatedly on one object): each cell agrees with the reference run from the
+   session stack, the `protected` counter is 0 again afterwards, and a cell that fails (FAILWITH or run-time error,
+   possibly deep inside DIP n / loops) leaves the session stack exactly as it was — so the theorem applies again to the
+   next cell *)
+Theorem C01_session_step_partial : forall e, env_okb e = true -> forall fuel code st R inputs,
+  in_fragment code -> typecheck_nr code st = Some R -> stack_typed inputs st ->
+  let (st', o) := py_execute e fuel code (mkst [] inputs) in
+  erase_outcome o = ref_eval e fuel code (map erase inputs) /\ prot st' = 0 /\
+  match ref_eval e fuel code (map erase inputs) with
+  | Done r => map erase (items st') = r /\ exists s1, R = Typed s1 /\ stack_typed (items st') s1
+  | _ => st' = mkst [] inputs
+  end.
+Proof. exact c01_execute. Qed.
+Print Assumptions C01_session_step_partial.
+
 (* the reference semantics never gets stuck on these programs (sanity of the transcription) *)
 Theorem C01_ref_progress_partial : forall e, env_okb e = true -> forall fuel code st R inputs,
   in_fragment code -> typecheck_nr code st = Some R -> stack_typed inputs st ->
